@@ -21,15 +21,114 @@ LOCAL_CRATES = ("zlib_rs", "libz_rs_sys")
 _known = None
 
 
-def known():
-    global _known
-    if _known is None:
+_table = None
+
+
+def table():
+    global _table
+    if _table is None:
         try:
             with open(KNOWN) as fh:
-                _known = set(json.load(fh)["fns"])
+                _table = json.load(fh)
         except OSError:
-            _known = None
-    return _known
+            _table = {}
+    return _table
+
+
+def known():
+    t = table()
+    return set(t["fns"]) if t.get("fns") else None
+
+
+def _walk(node, fn):
+    if isinstance(node, dict):
+        fn(node)
+        for v in node.values():
+            _walk(v, fn)
+    elif isinstance(node, list):
+        for v in node:
+            _walk(v, fn)
+
+
+def rename_back(facts, config=None):
+    """Map renamed private functions and renamed struct fields back to the names the rule tables use.
+    A function of the frozen list that is missing from this build, and exactly one unknown function in the same module
+    with the same parameter and return types: that is a rename.  A struct whose field list differs from the frozen one
+    only in names (same position and type, or a unique type match among the unmatched names): those are renames."""
+    t = table()
+    log = []
+    if not t.get("sigs"):
+        return log
+    index = {}
+    for cname, c in facts.items():
+        for f in c["fns"]:
+            index[strip_generics(f["path"])] = f
+    kn = set(t["fns"])
+    cfg_known = set(t.get("by_config", {}).get(config, [])) if config else kn
+    missing = [p for p in (cfg_known or kn) if p not in index and p.split("::")[0] in LOCAL_CRATES]
+    new = [p for p in index if p not in kn and p.split("::")[0] in LOCAL_CRATES and "{closure" not in p]
+    fn_alias = {}
+    for k in missing:
+        sig_k = t["sigs"].get(k)
+        if not sig_k:
+            continue
+        parent_k = k.rsplit("::", 1)[0]
+        cands = [u for u in new if u.rsplit("::", 1)[0] == parent_k and [index[u].get("module"), index[u].get("inputs"), index[u].get("output")] == sig_k
+                 and u not in fn_alias]
+        if len(cands) == 1:
+            fn_alias[cands[0]] = k
+    if fn_alias:
+        for u, k in fn_alias.items():
+            index[u]["path"] = k
+            log.append(("fn", u, k))
+
+        def fix(node):
+            if node.get("k") == "const" and "fn" in node:
+                cur = strip_generics(node.get("resolved") or node["fn"])
+                if cur in fn_alias:
+                    node["fn"] = fn_alias[cur]
+                    node.pop("resolved", None)
+        for cname, c in facts.items():
+            for f in c["fns"]:
+                if f.get("mir"):
+                    _walk(f["mir"], fix)
+                for pr in f.get("promoted", []) or []:
+                    _walk(pr, fix)
+    # struct fields
+    field_alias = {}     # (adt path, new name) -> old name
+    for cname, c in facts.items():
+        for a in c["adts"]:
+            old = t.get("adts", {}).get(a["path"])
+            if not old or a.get("kind") != "struct" or not a.get("variants"):
+                continue
+            cur = a["variants"][0]["fields"]
+            old_names = [n for n, _ in old]
+            cur_names = [fl["name"] for fl in cur]
+            if old_names == cur_names:
+                continue
+            lost = [(n, ty) for n, ty in old if n not in cur_names]
+            fresh = [fl for fl in cur if fl["name"] not in old_names]
+            for fl in fresh:
+                same_ty = [n for n, ty in lost if ty == fl["ty"]]
+                if len(same_ty) == 1 and len([g for g in fresh if g["ty"] == fl["ty"]]) == 1:
+                    field_alias[(a["path"], fl["name"])] = same_ty[0]
+                    log.append(("field", a["path"] + "." + fl["name"], same_ty[0]))
+            for fl in cur:
+                if (a["path"], fl["name"]) in field_alias:
+                    fl["name"] = field_alias[(a["path"], fl["name"])]
+    if field_alias:
+        def fixf(node):
+            if "f" in node and "name" in node and "adt" in node and (node["adt"], node["name"]) in field_alias:
+                node["name"] = field_alias[(node["adt"], node["name"])]
+            if node.get("k") == "agg" and node.get("agg") == "adt" and isinstance(node.get("fields"), list):
+                node["fields"] = [field_alias.get((node.get("adt"), n), n) for n in node["fields"]]
+        for cname, c in facts.items():
+            for f in c["fns"]:
+                if f.get("mir"):
+                    _walk(f["mir"], fixf)
+                for pr in f.get("promoted", []) or []:
+                    _walk(pr, fixf)
+    return log
 
 
 def _callee_path(term):
@@ -95,18 +194,116 @@ def _inline_one(fj, bi, gj):
     m["blocks"][bi] = {"s": stmts, "t": {"k": "goto", "t": boff, "line": line, "file": term.get("file")}}
 
 
-def apply(facts):
+def _const_bool(rv):
+    if rv.get("k") == "use" and rv["a"].get("k") == "const" and rv["a"].get("ty") == "bool" and isinstance(rv["a"].get("val"), int):
+        return rv["a"]["val"]
+    return None
+
+
+def thread_bools(m):
+    """Jump threading for boolean results of inlined predicates: a block that stores a constant into a local and then
+    falls (through copy-only blocks) into `switch` on that local (or on its negation) jumps straight to the selected
+    target.  Semantics-preserving; it makes `if !state.can_read() { return }` as precise as the spelled-out test."""
+    blocks = m["blocks"]
+    changed = 0
+    for pi, pb in enumerate(blocks):
+        if pb.get("cleanup") or pb["t"].get("k") != "goto":
+            continue
+        known = {}
+        for st in pb["s"]:
+            if st.get("k") == "assign" and not st["lhs"].get("p"):
+                v = _const_bool(st["rv"])
+                if v is not None:
+                    known[st["lhs"]["l"]] = v
+                else:
+                    known.pop(st["lhs"]["l"], None)
+        if not known:
+            continue
+        cur = pb["t"]["t"]
+        env = dict(known)
+        target = None
+        chain = []
+        for _ in range(6):
+            chain.append(cur)
+            b = blocks[cur]
+            if b.get("cleanup"):
+                break
+            ok = True
+            for st in b["s"]:
+                if st.get("k") != "assign" or st["lhs"].get("p"):
+                    ok = False
+                    break
+                rv = st["rv"]
+                l = st["lhs"]["l"]
+                if rv.get("k") == "use" and rv["a"].get("k") in ("copy", "move") and not rv["a"].get("p") and rv["a"]["l"] in env:
+                    env[l] = env[rv["a"]["l"]]
+                elif rv.get("k") == "un" and rv.get("op") == "Not" and rv["a"].get("k") in ("copy", "move") and not rv["a"].get("p") and rv["a"]["l"] in env:
+                    env[l] = 1 - env[rv["a"]["l"]]
+                elif _const_bool(rv) is not None:
+                    env[l] = _const_bool(rv)
+                else:
+                    ok = False
+                    break
+            if not ok:
+                break
+            t = b["t"]
+            if t.get("k") == "goto":
+                cur = t["t"]
+                continue
+            if t.get("k") == "switch" and t.get("discr_ty") == "bool" and t["discr"].get("k") in ("copy", "move") and not t["discr"].get("p") \
+                    and t["discr"]["l"] in env:
+                v = env[t["discr"]["l"]]
+                target = t["otherwise"]
+                for val, tb in t["targets"]:
+                    if val == v:
+                        target = tb
+            break
+        if target is not None:
+            pb["t"] = dict(pb["t"], t=target)
+            changed += 1
+            # the constant stores that only fed the skipped switch are dead now: drop them, so that the local keeps a single
+            # (non-constant) definition and stays transparent to the expression builder
+            for loc in list(known):
+                if not _read_outside(blocks, loc, set(chain)):
+                    pb["s"] = [st for st in pb["s"] if not (st.get("k") == "assign" and not st["lhs"].get("p") and st["lhs"]["l"] == loc
+                                                             and _const_bool(st["rv"]) is not None)]
+    return changed
+
+
+def _read_outside(blocks, loc, chain):
+    def reads(node):
+        if isinstance(node, dict):
+            if node.get("l") == loc and node.get("k") in ("copy", "move"):
+                return True
+            return any(reads(v) for k, v in node.items() if k != "lhs")
+        if isinstance(node, list):
+            return any(reads(v) for v in node)
+        return False
+    for bi, b in enumerate(blocks):
+        if bi in chain or b.get("cleanup"):
+            continue
+        if reads(b["s"]) or reads(b["t"]):
+            return True
+        for st in b["s"]:
+            lhs = st.get("lhs") or {}
+            if lhs.get("l") == loc and lhs.get("p"):
+                return True
+    return False
+
+
+def apply(facts, config=None):
     kn = known()
     if kn is None:
         return facts, []
+    rlog = rename_back(facts, config)
     index = {}
     for cname, c in facts.items():
         for f in c["fns"]:
             index[strip_generics(f["path"])] = f
     new = {p for p, f in index.items() if p.split("::")[0] in LOCAL_CRATES and p not in kn and "{closure" not in p and f.get("mir")}
     if not new:
-        return facts, []
-    log = []
+        return facts, rlog
+    log = list(rlog)
     pristine = {p: copy.deepcopy(index[p]) for p in new}
     for p, f in index.items():
         m = f.get("mir")
@@ -131,4 +328,33 @@ def apply(facts):
                     changed = True
                     if count >= 40:
                         break
+        if count:
+            for _ in range(3):
+                if not thread_bools(m):
+                    break
+    # a new function all of whose call sites were inlined is no longer a function of the analysed program
+    still_called = set()
+    for pth, f in index.items():
+        m = f.get("mir")
+        if not m:
+            continue
+        for b in m["blocks"]:
+            t = b["t"]
+            if t.get("k") in ("call", "tailcall") and not b.get("cleanup"):
+                cp = _callee_path(t)
+                if cp in new:
+                    still_called.add(cp)
+    inlined_away = ({e[1] for e in log if len(e) == 2} & new) - still_called
+    if inlined_away:
+        for cname, c in facts.items():
+            c["fns"] = [f for f in c["fns"] if strip_generics(f["path"]) not in inlined_away]
     return facts, log
+
+
+def frozen_callers(path):
+    return list(table().get("callers", {}).get(path, []))
+
+
+def is_known(path):
+    kn = known()
+    return kn is not None and path in kn
